@@ -50,7 +50,7 @@ def seeded():
     p = os.path.join(V, "evidence", "sensitivity_seeded.json")
     if os.path.exists(p):
         for r in json.load(open(p))["results"]:
-            res[r["patch_dir"] if "patch_dir" in r else r.get("dir", r["patch"])] = r
+            res[r["patch"]] = r
     out = ["| dir | prop | change | needs, to manifest | caught by | invariant:key |", "|---|---|---|---|---|---|"]
     for d in sorted(glob.glob(os.path.join(V, "seeded", "*"))):
         mf = os.path.join(d, "meta.json")
